@@ -160,6 +160,10 @@ func fieldVarOf(v ssa.Value) *types.Var {
 
 // chanField: the struct field a channel value was loaded from (through a single-store local).
 func chanField(v ssa.Value) *types.Var {
+	return chanFieldRec(v, map[ssa.Value]bool{})
+}
+
+func chanFieldRec(v ssa.Value, seen map[ssa.Value]bool) *types.Var {
 	for i := 0; i < 5; i++ {
 		switch x := v.(type) {
 		case *ssa.UnOp:
@@ -177,8 +181,13 @@ func chanField(v ssa.Value) *types.Var {
 			}
 			return nil
 		case *ssa.Phi:
+			// (a loop variable that is set to nil on one way round the loop refers to itself)
+			if seen[x] {
+				return nil
+			}
+			seen[x] = true
 			for _, e := range x.Edges {
-				if f := chanField(e); f != nil {
+				if f := chanFieldRec(e, seen); f != nil {
 					return f
 				}
 			}
